@@ -8,20 +8,22 @@ import (
 
 	"github.com/bokysan/socketace/v2/internal/server"
 	sdns "github.com/bokysan/socketace/v2/internal/streams/dns"
+	"github.com/xtaci/smux"
 )
 
 func init() { Scenarios["C14"] = scenarioC14 }
 
 type ledger struct {
-	G     map[string]int
-	Conns int
-	Lsn   int
-	Socks int
+	G       map[string]int
+	Conns   int
+	Lsn     int
+	Socks   int
+	Streams int // multiplexer streams in the stream tables of live sessions
 }
 
 func takeLedger(r *Run) ledger {
 	c, l, s := r.Net.OpenEndpoints()
-	return ledger{G: GoroutineLedger(), Conns: c, Lsn: l, Socks: s}
+	return ledger{G: GoroutineLedger(), Conns: c, Lsn: l, Socks: s, Streams: smux.SimOpenStreams()}
 }
 
 // diff lists what b holds in excess of a (shrinking is never a leak).
@@ -53,6 +55,9 @@ func (a ledger) diff(b ledger) string {
 	if b.Socks > a.Socks {
 		out = append(out, fmt.Sprintf("open datagram sockets: %d -> %d", a.Socks, b.Socks))
 	}
+	if b.Streams > a.Streams {
+		out = append(out, fmt.Sprintf("multiplexer streams still in the stream table of a live session: %d -> %d", a.Streams, b.Streams))
+	}
 	return strings.Join(out, "; ")
 }
 
@@ -71,6 +76,9 @@ func leakSites(a, b ledger) string {
 	sort.Strings(out)
 	if b.Conns > a.Conns {
 		out = append(out, "sockets")
+	}
+	if b.Streams > a.Streams {
+		out = append(out, "streams")
 	}
 	return strings.Join(out, ",")
 }
